@@ -79,8 +79,11 @@ def _one(d, ctx, kind, tier_all, **kw):
                           'fit-not-equivariant', rtol=1e-7, atol=1e-8,
                           kind=kind, what=f'perm={perm}')
         post1 = ctx.lib(mm.predict, m1, c2)
+        # (cBMM: eigenvalues from an iterative solver, summation order of the
+        # classes differs between the two fits)
         require_close(post0[..., perm, :], post1, 'posterior-not-equivariant',
-                      atol=1e-7, what=f'perm={perm}', kind=kind)
+                      atol=1e-5 if kind == 'cbmm' else 1e-7, what=f'perm={perm}',
+                      kind=kind)
         checked += 1
     ctx.nontrivial(checked > 0)
     ctx.label(f'perms={min(checked, 6)}')
